@@ -20,6 +20,7 @@ RULE = (
     "stress at a single diagonal F, F uniform. family 'view': material-level uniaxial / planar / biaxial curves "
     "(compressible and incompressible views) against the same root search. Non-trivial: |H| or |stretch - 1| >= "
     "0.05, >= 2 cells with a moved interior point."
+    ' Patch tests may be preceded by a post-processing call (extrapolate) on another region of the same template (shared default quadrature must stay unchanged); a third of the compressible view cases uses a soft NeoHooke with 8-30 stretches from 0.6 to 2.5 (restart branches of the lateral-stretch solver).'
 )
 ASSUMPTIONS = [
     "materials have a unique homogeneous solution in the generated range (compressible models, stretches in [0.75, 1.45])",
